@@ -10,6 +10,10 @@
 // templates in the library, not from the names). Members it finds but has no
 // equation for are listed in the generated `uncovered` variable.
 //
+// Package future is covered like option and try (emit_monad_tc.go, futureM): its
+// members are called over already completed futures, without the optional trailing
+// executor argument, under a run-to-completion task queue (chkFut in c14_test.go).
+//
 // The arity a member really has is derived from its number of type parameters
 // (e.g. curried.Flip2 takes a 3-argument function, option.Method2 and
 // option.Method3 both take a 3-argument function), never from the name.
@@ -100,6 +104,8 @@ var aliases = map[string]struct {
 	"curried.FlipApply":   {"FlipApply", 1},
 	"fp.Func2.ApplyFirst": {"ApplyFirst", 1},
 	"fp.Func2.ApplyLast":  {"ApplyLast", 1},
+	"future.Flap":         {"Flap", 1}, // Flap2..9 are defined by recursion down to it
+	"future.Zip":          {"Zip", 2},  // Zip3's two-operand sibling
 }
 
 func discover(root, dir, pkg string) []*member {
